@@ -71,7 +71,12 @@ ENDPOINT_FORMS = {
     "query-msgbase": ("session_id=s4&x=1", "http://h.test/messages/v1"),
     "dataonly-messages": ("/messages/?session_id=s5", None),
     "dataonly-mcp": ("http://h.test/mcp?session_id=s6", None),
+    "url-https": ("https://other.test/messages/?session_id=s7&k=%7B%7D", None),
+    # an announcement that announces nothing: not an announcement (entering must not yield on it)
+    "empty": ("", None),
+    "blank": (" \t ", None),
 }
+NOT_ANNOUNCING = {"empty", "blank"}
 DATAONLY = {"dataonly-messages", "dataonly-mcp"}
 
 
@@ -138,22 +143,46 @@ def chunk_plan(case):
 MODE_POST = {"200": "200", "evack": "202", "ackev": "202", "silence": "202", "status": "status", "exc": "exc"}
 
 
+def real_reqs(case):
+    """the requests proper (a notification or a non-message object written to the stream has no
+    terminal message)"""
+    return [r for r in case.get("reqs", []) if r["mode"] not in ("notif", "garbage")]
+
+
 def harness_case(case):
     plan, close = chunk_plan(case)
     reqs = []
     for r in case.get("reqs", []):
+        h = {"id": r.get("id"), "at": r["at"]}
+        for f in ("form", "params", "method", "answer", "extra"):
+            if f in r:
+                h[f] = r[f]
+        if r["mode"] == "garbage":
+            h["form"] = "garbage"
+        if r["mode"] in ("notif", "garbage"):
+            h["id"] = None
+            reqs.append(h)
+            continue
         post = {"k": MODE_POST[r["mode"]], "d": r.get("d", 4), "code": r.get("code", 500), "body": r.get("body", "text")}
+        for f in ("body200", "text", "exc_text"):
+            if f in r:
+                post[f] = r[f]
         ev = None
         if r["mode"] in ("evack", "ackev"):
             ev = {"d": r["ed"], "cuts": r.get("cuts", []), "gap": r.get("gap", 0), "typed": r.get("typed", True),
                   "after_post_at_tie": bool(r.get("tiePostFirst"))}
-        reqs.append({"id": r["id"], "at": r["at"], "post": post, "ev": ev})
-    return {
+        h.update(post=post, ev=ev)
+        reqs.append(h)
+    out = {
         "base": case.get("base", "http://h.test"), "T": case.get("T", T_DEFAULT), "tie": case.get("tie", "events"),
         "conn": case.get("conn", {"k": "ok", "at": 0}),
         "chunks": [[t, p.hex()] for t, p in plan], "close": close, "bounds": item_bounds(case),
         "reqs": reqs, "exit": case.get("exit", {"k": "normal", "at": 50}), "pause": case.get("pause", 0),
     }
+    for f in ("write_mode", "warm", "api", "params", "close_raises", "notif_post"):
+        if f in case:
+            out[f] = case[f]
+    return out
 
 
 def py_key(v):
@@ -183,13 +212,15 @@ def model_line(case):
             table.append({"d": [ord(c) for c in data], "key": py_key(it["m"].get("id")) if isinstance(it["m"], dict) else None,
                           "ok": bool(it.get("valid", True))})
     reqs = []
-    for r in case.get("reqs", []):
+    for r in real_reqs(case):
         m = {"200": "body", "evack": "evack", "ackev": "ackev", "silence": "silence", "status": "other", "exc": "exc"}[r["mode"]]
-        e = {"key": r["id"], "mode": m}
+        if m == "body" and r.get("body200", "rpc") != "rpc":
+            m = "unreadable"
+        e = {"key": py_key(r["id"]), "mode": m}
         if m == "other":
             body = r.get("body", "text")
             if body == "rpc":
-                e["b"] = {"key": r["id"], "ok": True}
+                e["b"] = {"key": py_key(r["id"]), "ok": True}
             elif body == "detail":
                 e["b"] = {"key": None, "ok": True}
             else:
@@ -215,7 +246,7 @@ def announce_tick(case):
     end = None
     for it in items_of(case):
         b = render_item(it).encode("utf-8")
-        if it["k"] == "endpoint":
+        if it["k"] == "endpoint" and it["form"] not in NOT_ANNOUNCING:
             # the announcement is complete with the line feed that ends its data line
             nl = 2 if it.get("crlf") else 1
             end = pos + len(b) - nl
@@ -284,7 +315,7 @@ def exit_after(case):
     """normal exit late enough for every request to have finished"""
     T = case.get("T", T_DEFAULT)
     at = 20
-    for r in case.get("reqs", []):
+    for r in real_reqs(case):
         at = max(at, r["at"]) + r.get("d", 4) + r.get("ed", 0) + len(r.get("cuts", [])) * r.get("gap", 0) + 10
         if r["mode"] == "silence":
             at += T
@@ -341,6 +372,10 @@ def establish_cases(budget, rng):
             for c_at in (CAP - 3, CAP + 3, CAP + 900):
                 out.append(finish({"tie": tie, "T": CAP + 5 * 1024, "conn": {"k": "ok", "at": c_at}, "items": [EP], "t0": c_at + 3, "reqs": [probe_req()]}))
                 out.append(finish({"tie": tie, "T": CAP + 5 * 1024, "conn": {"k": "status", "at": c_at, "code": 404}, "items": [], "reqs": [probe_req()]}))
+        if lits()["cap"] is not None:
+            for T in (lits()["cap"] - 1, lits()["cap"], lits()["cap"] + 1):  # timeout = the cap literal itself
+                out.append(finish({"tie": tie, "T": T, "conn": {"k": "hang"}, "items": [], "reqs": []}))
+                out.append(finish({"tie": tie, "T": T, "conn": {"k": "ok", "at": 7}, "items": [EP], "t0": 9, "reqs": [probe_req()]}))
         for T in (512, 1024, 16 * 1024):
             out.append(finish({"tie": tie, "T": T, "conn": {"k": "ok", "at": 1}, "items": [], "close": None, "reqs": []}))
             out.append(finish({"tie": tie, "T": T, "conn": {"k": "hang"}, "items": [], "reqs": []}))
@@ -493,10 +528,10 @@ def chunk_cases(budget, rng):
         n = len(stream_bytes(base_case))
         cutsets = [[]] + [[i] for i in range(1, n)]
         if si < 2:
-            step = 1 if budget != "quick" else 2
+            step = 1 if budget != "quick" else 6
             cutsets += [[i, j] for i in range(1, n) for j in range(i + 1, n)][::step]
         else:
-            m = 250 if budget == "quick" else 6000
+            m = 100 if budget == "quick" else 6000
             for _ in range(m):
                 cutsets.append(sorted(set(rng.randint(1, n - 1) for _ in range(rng.randint(2, 4)))))
         for ci, cuts in enumerate(cutsets):
@@ -529,9 +564,15 @@ def exit_cases(budget, rng):
     # no request at all
     for ek in EXIT_KINDS:
         out.append({"T": T, "items": [EP], "reqs": [], "exit": {"k": ek, "at": 9}})
-    # NOT generated (outside the property's quantifier: the server ends the event stream after
-    # announcing the endpoint): {"items":[EP],"close":3,"reqs":[silence],"exit":{"k":"normal","at":40}}
-    # makes `_cleanup` wait for ever for `_outgoing_task` on the pinned code.
+    # the server has ended the event stream (half-close) / closing the stream fails
+    for ek in EXIT_KINDS:
+        for spec in ({"mode": "silence", "d": 2}, {"mode": "200", "d": 6}, {"mode": "exc", "d": 6}):
+            for at in (4, 6, 9, 40):
+                for ti, tie in enumerate(TIES):
+                    if budget == "quick" and (at + ti) % 2:
+                        continue
+                    out.append({"T": T, "tie": tie, "items": [EP], "close": 3, "reqs": [mk_req(1, 5, spec)], "exit": {"k": ek, "at": at}})
+                    out.append({"T": T, "tie": tie, "items": [EP, msg_notif(1)], "close_raises": True, "reqs": [mk_req(1, 5, spec)], "exit": {"k": ek, "at": at}})
     return out
 
 
@@ -564,3 +605,229 @@ def backpressure_cases(budget, rng):
                            "cuts": "items", "t0": 1, "gap": 1, "pause": 130, "reqs": [mk_req(1, 3, {"mode": "ackev", "d": 2, "ed": 4})]}))
         out.append(finish({"T": T, "tie": tie, "items": [EP, {"k": "burst", "n": 250, "start": 0}], "cuts": [], "t0": 1, "gap": 0, "pause": 0, "reqs": []}))
     return out
+
+
+# ------------------------------------------------------------------ hardening sweep (HARDEN.md)
+ID_POOL = [7, "7", 0, "0", "", -1, 2 ** 53 + 1, "r1", "a b", "%s %d {} {0}", "ü x\u0085", "q\"uo\\te'", "a\nb\r\nc", "x" * 5000,
+           "endpoint", "session_id=1", "/mcp", "message"]
+ALL_MODES = REQ_MODES + [{"mode": "200", "body200": "nonjson"}, {"mode": "200", "body200": "empty"}]
+ANSWERS = [
+    {"kind": "result", "payload": {}},
+    {"kind": "result", "payload": {"a": None, "": 0, "f": False, "l": [], "s": "", "z": 0.0}},
+    {"kind": "error", "code": 0, "message": ""},
+    {"kind": "error", "code": 0, "message": "", "data": 0},
+    {"kind": "error", "code": -32000, "message": "Request timeout"},       # the codes the transport synthesises itself
+    {"kind": "error", "code": -32603, "message": "HTTP 500: %s {0}"},
+    {"kind": "result", "payload": {"uri": "http://x/mcp", "p": "/messages/", "s": "session_id=9", "j": "\"jsonrpc\""}},
+]
+HOSTILE = ["", "%", "%s %d", "{}", "{0} {x}", "a\nb", "a\r\nb", "  \u0085", "'\"\\", "x" * 99, "x" * 100, "x" * 101, "y" * 5000]
+STATUS_CODES = [201, 203, 204, 205, 206, 299, 300, 301, 302, 304, 400, 401, 403, 404, 405, 409, 429, 500, 502, 503, 504]
+PARAM_SETS = [{}, {"headers": {}}, {"headers": {"Authorization": "Bearer t"}}, {"headers": {"authorization": ""}},
+              {"headers": {"X-Empty": ""}, "bearer_token": "tok"}, {"bearer_token": ""}, {"bearer_token": "Bearer tok"},
+              {"headers": {"AUTHORIZATION": "Basic x"}, "bearer_token": "tok"}]
+
+# event-stream lines that carry nothing (must not deliver anything, must not disturb what follows)
+EMPTY_EVENTS = [
+    {"k": "raw", "text": "event: message\n\n"},
+    {"k": "raw", "text": "event: endpoint\n\n"},
+    {"k": "raw", "text": ":\n"},
+    {"k": "raw", "text": "\n\n\n"},
+    {"k": "raw", "text": "data\n\n"},
+    {"k": "raw", "text": "data: \n\n"},
+    {"k": "raw", "text": "event: message\ndata: \n\n"},
+    {"k": "raw", "text": "event: keepalive\ndata: /mcp?session_id=ka\n\n"},
+    {"k": "raw", "text": "event: \ndata: x\n\n"},
+]
+
+
+def msg_magic(i, typed):
+    """a server message whose text contains the substrings the transport looks for"""
+    return {"k": "msg", "m": {"jsonrpc": "2.0", "method": "notifications/resources/updated",
+                              "params": {"uri": "http://h.test/mcp", "p": "/messages/", "s": "session_id=9", "j": "\"jsonrpc\"", "i": i}}, "typed": typed}
+
+
+def msg_odd(i):
+    """extra members, id last"""
+    return {"k": "msg", "m": {"x-extra": {"a": [1, None]}, "result": {"ok": True}, "jsonrpc": "2.0", "id": f"odd-{i}"}, "typed": bool(i % 2)}
+
+
+def hardening_cases(budget, rng):
+    out = []
+    T = 256
+    k = 0
+    forms = ("dict", "model")
+    # -- ids of both JSON types, falsy ids, hostile ids: every request mode
+    for rid in ID_POOL:
+        for spec in ALL_MODES:
+            k += 1
+            if budget == "quick" and isinstance(rid, str) and len(rid) > 100 and k % 3:
+                continue
+            c = {"T": T, "tie": TIES[k % 3], "items": [EP, msg_notif(k)], "t0": 1, "gap": 0,
+                 "reqs": [mk_req(1, 3, spec, id=rid, form=forms[k % 2])]}
+            out.append(finish(c))
+    # -- type twins side by side, and one id used again
+    twins = [[7, "7"], ["7", 7], [0, "0", ""], ["", 0], [7, 7], ["r1", "r1", "r1"]]
+    for ids in twins:
+        for a in range(0, len(ALL_MODES), 2 if budget == "quick" else 1):
+            k += 1
+            reqs = [mk_req(j + 1, 3 + 2 * j, ALL_MODES[(a + 3 * j) % len(ALL_MODES)], id=i, form=forms[(k + j) % 2]) for j, i in enumerate(ids)]
+            out.append(finish({"T": T, "tie": TIES[k % 3], "items": [EP, msg_srvreq(k)], "t0": 1, "gap": 0, "reqs": reqs}))
+    # -- what the server may answer: empty result, falsy members, error objects with falsy / magic members, extra members
+    for ans in ANSWERS:
+        for spec in ({"mode": "200"}, {"mode": "evack", "d": 9, "ed": 3}, {"mode": "ackev", "d": 3, "ed": 9}, {"mode": "status", "code": 400, "body": "rpc"}):
+            for extra in (None, {"x-extra": 0}):
+                k += 1
+                c = {"T": T, "tie": TIES[k % 3], "items": [EP], "t0": 1, "gap": 0,
+                     "reqs": [mk_req(1, 3, spec, id=[7, "r1", 0][k % 3], form=forms[k % 2], answer=ans, **({"extra": extra} if extra else {}))]}
+                out.append(finish(c))
+    # -- what the client may write: notifications, model objects, non-messages, falsy params / method
+    writes = [
+        [{"mode": "garbage"}, {"mode": "200"}],
+        [{"mode": "notif"}, {"mode": "200"}],
+        [{"mode": "notif", "form": "model", "params": {}}, {"mode": "ackev", "d": 3, "ed": 9, "form": "model"}],
+        [{"mode": "notif", "method": ""}, {"mode": "silence", "d": 2}],
+        [{"mode": "200", "params": {}, "method": ""}, {"mode": "200", "params": {"a": None, "b": [], "c": "", "d": 0, "e": False}}],
+        [{"mode": "200", "form": "model", "params": {"_meta": {"progressToken": 0}}}, {"mode": "garbage"}, {"mode": "notif"}, {"mode": "exc"}],
+    ]
+    for ws in writes:
+        for notif_post in (None, "exc", 500, 404):
+            k += 1
+            reqs = [mk_req(j + 1, 3 + j, w) for j, w in enumerate(ws)]
+            c = {"T": T, "tie": TIES[k % 3], "items": [EP], "t0": 1, "gap": 0, "reqs": reqs}
+            if notif_post is not None:
+                c["notif_post"] = notif_post
+            out.append(finish(c))
+    # -- other statuses and hostile texts in bodies / exception texts
+    for i, code in enumerate(STATUS_CODES):
+        for body in ("text", "empty", "detail", "rpc"):
+            k += 1
+            if budget == "quick" and (i + k) % 2:
+                continue
+            out.append(finish({"T": T, "tie": TIES[k % 3], "items": [EP], "t0": 1, "gap": 0,
+                               "reqs": [mk_req(1, 3, {"mode": "status", "code": code, "body": body}, id=[7, "r1"][k % 2])]}))
+    for i, txt in enumerate(HOSTILE):
+        k += 1
+        out.append(finish({"T": T, "tie": TIES[k % 3], "items": [EP], "t0": 1, "gap": 0,
+                           "reqs": [mk_req(1, 3, {"mode": "status", "code": 500, "body": "text", "text": txt}), mk_req(2, 5, {"mode": "exc", "exc_text": txt})]}))
+    # -- events that carry nothing, duplicated messages, magic substrings, odd member order: around requests
+    for i, e in enumerate(EMPTY_EVENTS):
+        for spec in ({"mode": "200"}, {"mode": "ackev", "d": 3, "ed": 9}):
+            k += 1
+            items = [e, EP, e, msg_notif(1), e, msg_notif(1), msg_magic(i, True), e, msg_magic(i, False), msg_odd(i), e]
+            if e["text"].startswith("event: endpoint") or "session_id=ka" in e["text"]:
+                items = items[1:]  # before the announcement these would BE (or not be) the announcement: see establish
+            nbytes = len("".join(render_item(it) for it in items).encode("utf-8"))
+            out.append(finish({"T": T, "tie": TIES[k % 3], "items": items, "cuts": sorted(rng.sample(range(1, nbytes), 4)), "t0": 1, "gap": k % 3,
+                               "reqs": [mk_req(1, 3, spec)]}))
+    # -- the server half-closes: ends the event stream after the announcement, POSTs keep working
+    for spec in ({"mode": "200"}, {"mode": "silence", "d": 2}, {"mode": "status", "code": 500, "body": "text"}, {"mode": "exc"}):
+        for close in (0, 2, 40):
+            k += 1
+            out.append(finish({"T": T, "tie": TIES[k % 3], "items": [EP, msg_notif(2)], "t0": 1, "gap": 0, "close": close,
+                               "reqs": [mk_req(1, 3, spec), mk_req(2, 6, {"mode": "200"})]}))
+    # -- headers / bearer token variants (inputs only: the property does not name the headers)
+    for i, ps in enumerate(PARAM_SETS):
+        for conn in ({"k": "ok", "at": 0}, {"k": "status", "at": 0, "code": 401}):
+            k += 1
+            out.append(finish({"T": T, "tie": TIES[k % 3], "conn": conn, "params": ps, "items": [EP], "t0": 1, "gap": 0, "reqs": [probe_req()]}))
+    # -- reuse: a second session on the same parameters object; the alternate entry point
+    for conn, items, close in (({"k": "ok", "at": 0}, [EP, msg_notif(1)], None), ({"k": "status", "at": 1, "code": 404}, [], None),
+                               ({"k": "ok", "at": 0}, [], 3), ({"k": "error", "at": 2}, [], None)):
+        for extra in ({"warm": True}, {"api": "fallback"}, {"warm": True, "api": "fallback"}):
+            k += 1
+            c = {"T": T, "tie": TIES[k % 3], "conn": conn, "items": items, "t0": 1, "gap": 0, "close": close,
+                 "reqs": [mk_req(1, 3, {"mode": "ackev", "d": 3, "ed": 9}), mk_req(2, 4, {"mode": "200"})]}
+            c.update(extra)
+            out.append(finish(c))
+    # -- back-pressure towards the producer: the client awaits every send while the sender is
+    #    blocked in a 202 wait; more messages than the write buffer (100) holds
+    for n in (99, 100, 101, 150):
+        for first in ({"mode": "silence", "d": 2}, {"mode": "ackev", "d": 2, "ed": 60}):
+            k += 1
+            reqs = [mk_req(1, 2, first)] + [{"id": None, "at": 3, "mode": "notif", "params": {"i": i}} for i in range(n)] + [mk_req(2, 3, {"mode": "200"})]
+            c = {"T": 64, "tie": TIES[k % 3], "items": [EP], "t0": 1, "gap": 0, "write_mode": "await", "reqs": reqs}
+            out.append(finish(c))
+    # -- one very long message (crosses many chunks)
+    for size in ((20000,) if budget == "quick" else (20000, 100000)):
+        k += 1
+        big = {"k": "msg", "m": {"jsonrpc": "2.0", "method": "notifications/message", "params": {"t": "%s{}é" * (size // 6)}}, "typed": True}
+        items = [EP, big, msg_notif(1)]
+        nbytes = len("".join(render_item(it) for it in items).encode("utf-8"))
+        out.append(finish({"T": T, "tie": TIES[k % 3], "items": items, "cuts": list(range(1000, nbytes, 4096)), "t0": 1, "gap": 0, "reqs": [probe_req()]}))
+    return out
+
+
+def invalid_parameter_cases():
+    """URLs the library refuses: creating / entering the context raises at once (oracle only)"""
+    out = []
+    for i, url in enumerate(["", "ftp://h.test", "h.test/sse", "ftp://h.test/404 not found", "ws://h.test/405 method not allowed", "HTTP://h.test"]):
+        for api in ("sse_client", "fallback"):
+            out.append(finish({"boundary": True, "T": 256, "tie": TIES[i % 3], "base": url, "api": api, "items": [EP], "reqs": [probe_req()]}))
+    return out
+
+
+def boundary_cases(budget, rng):
+    """arrivals exactly on the timer boundaries of the code (enter timeout, connection cap, 202
+    wait); either side of the tie satisfies the property, so these run with the oracle only"""
+    out = invalid_parameter_cases()
+    T = 256
+    for tie in TIES:
+        for dt in (-1, 0, 1):
+            out.append(finish({"boundary": True, "T": T, "tie": tie, "conn": {"k": "ok", "at": 0}, "items": [EP], "t0": T + dt, "reqs": [probe_req()]}))
+            out.append(finish({"boundary": True, "T": T, "tie": tie, "conn": {"k": "ok", "at": 0}, "items": [], "close": T + dt - 1, "t0": 1, "reqs": [probe_req()]}))
+            out.append(finish({"boundary": True, "T": T, "tie": tie, "conn": {"k": "ok", "at": T + dt}, "items": [EP], "t0": T + dt, "reqs": [probe_req()]}))
+            out.append(finish({"boundary": True, "T": T, "tie": tie, "conn": {"k": "status", "at": T + dt, "code": 404}, "items": [], "reqs": [probe_req()]}))
+            if lits()["cap"] is not None:
+                C = lits()["cap"]
+                out.append(finish({"boundary": True, "T": C + 2048, "tie": tie, "conn": {"k": "ok", "at": C + dt}, "items": [EP], "t0": C + dt + 2, "reqs": [probe_req()]}))
+            # the answer on the event stream exactly when the 202 wait expires: still in time (dt<=0)
+            if dt <= 0:
+                out.append(finish({"boundary": True, "T": T, "tie": tie, "items": [EP], "t0": 1, "gap": 0,
+                                   "reqs": [mk_req(1, 3, {"mode": "ackev", "d": 4, "ed": 4 + T + dt}), mk_req(2, 5, {"mode": "200"})]}))
+    return out
+
+
+def features(case):
+    """which rarely taken paths / input classes a case exercises (printed in the evidence
+    distribution as `feature:*` so that gaps are visible)"""
+    f = set()
+    conn = case.get("conn", {"k": "ok"})
+    f.add("conn:" + conn["k"])
+    for it in case.get("items", []):
+        if it["k"] == "endpoint":
+            f.add("endpoint:" + it["form"] + (":crlf" if it.get("crlf") else "") + (":pad" if it.get("pad") else ""))
+        elif it["k"] == "msg":
+            f.add("msg:" + ("typed" if it.get("typed", True) else "data-only") + ("" if it.get("valid", True) else ":invalid"))
+        elif it["k"] == "burst":
+            f.add("burst:" + ("<100" if it["n"] < 100 else "=100" if it["n"] == 100 else ">100"))
+        else:
+            f.add("raw:" + repr(it["text"][:24]))
+    if case.get("close") is not None:
+        f.add("stream-closed-by-server")
+    for r in case.get("reqs", []):
+        m = r["mode"]
+        if m == "status":
+            m += ":" + str(r.get("code", 500)) + ":" + r.get("body", "text")
+        if m == "200" and r.get("body200", "rpc") != "rpc":
+            m += ":" + r["body200"]
+        f.add("req:" + m)
+        if r["mode"] not in ("notif", "garbage"):
+            i = r["id"]
+            f.add("id:" + ("int" if isinstance(i, int) else "str") + (":falsy" if not i else "") + (":digits" if isinstance(i, str) and i.lstrip("-").isdigit() else ""))
+        if r.get("form"):
+            f.add("form:" + r["form"])
+        if r.get("answer"):
+            f.add("answer:" + r["answer"]["kind"] + (":empty" if not (r["answer"].get("payload") or r["answer"].get("message")) else ""))
+        if r.get("typed") is False:
+            f.add("response-event:data-only")
+        if r.get("cuts"):
+            f.add("response-event:cut")
+    ids = [r.get("id") for r in real_reqs(case)]
+    if len(set(map(str, ids))) < len(ids):
+        f.add("ids:same-str-key-twice")
+    for name in ("warm", "api", "write_mode", "params", "close_raises", "notif_post", "pause", "boundary"):
+        if case.get(name):
+            f.add(name + (":" + str(case[name]) if name in ("api", "write_mode", "notif_post") else ""))
+    f.add("tie:" + case.get("tie", "events"))
+    f.add("exit:" + case.get("exit", {}).get("k", "normal"))
+    return f
